@@ -41,6 +41,45 @@ AccountAccepts(r) ==
                       LET ah == HeapOf(r.claimed.cells) IN
                       P!AccountCellOk(heap, info, l.r[AccountRefIdx(l.v)], ah, C!InfoAll(ah), r.claimed.root)
 
+\* shard proof: two roots (masterchain block proof, masterchain state proof), the masterchain block id, the shard block id.
+\* Read by position, as block.tlb lays them out:
+\*   block#11ef55aa global_id:int32 info:^BlockInfo ...;  block_info#9bc7a987 version:uint32 (8 one-bit fields) flags:(## 8)
+\*   seq_no:# vert_seq_no:# shard:ShardIdent(shard_ident$00 shard_pfx_bits:(#<= 60) workchain_id:int32 ...)
+\*   shard_state#9023afe2 ... custom:(Maybe ^McStateExtra) (the last reference when the last bit is 1)
+\*   masterchain_state_extra#cc26 shard_hashes:(HashmapE 32 ^(BinTree ShardDescr)) ...
+\*   bt_leaf$0 / bt_fork$1 ^ ^ ;  shard_descr#b|#a seq_no:uint32 reg_mc_seqno:uint32 start_lt:uint64 end_lt:uint64 root_hash:bits256 ...
+CellBits(c) == BitsOf([n |-> c.n, y |-> c.y])
+RECURSIVE BtLeaves(_, _)
+BtLeaves(heap, id) ==
+    LET c == heap[id]  b == CellBits(c) IN
+    IF c.t # C!ORD \/ Len(b) < 1 THEN {}
+    ELSE IF b[1] = 0 THEN {b}
+    ELSE IF Len(c.r) # 2 THEN {}
+    ELSE BtLeaves(heap, c.r[1]) \cup BtLeaves(heap, c.r[2])
+ShardAccepts(r) ==
+    IF r.same = 1 THEN TRUE
+    ELSE
+    LET heap == HeapOf(r.cells)
+        info == C!InfoAll(heap)
+    IN /\ r.blk.wc = -1
+       /\ Len(r.roots) = 2
+       /\ Len(heap[r.roots[1]].r) >= 1 /\ Len(heap[r.roots[2]].r) >= 1
+       /\ LET blk == heap[r.roots[1]].r[1]  st == heap[r.roots[2]].r[1] IN
+          /\ heap[blk].t = C!ORD /\ Len(heap[blk].r) >= 3
+          /\ LET bi == heap[heap[blk].r[1]]  ib == CellBits(bi) IN
+             /\ bi.t = C!ORD /\ Len(ib) >= 184
+             /\ BitsToBytes(SubSeq(ib, 81, 112)) = r.blk.seqno4
+             /\ BitsToBytes(SubSeq(ib, 153, 184)) = r.blk.wc4
+          /\ P!CheckBlockHeaderState(heap, info, blk, r.blk.root)
+          /\ C!HashAt(heap, info, st, 0) = P!StateHashOf(heap, info, blk)
+          /\ heap[st].t = C!ORD /\ Len(heap[st].r) = 4 /\ heap[st].n >= 1 /\ CellBits(heap[st])[heap[st].n] = 1
+          /\ LET ex == heap[heap[st].r[4]]  eb == CellBits(ex) IN
+             /\ ex.t = C!ORD /\ Len(eb) >= 17 /\ BitsToBytes(SubSeq(eb, 1, 16)) = <<204, 38>> /\ eb[17] = 1 /\ Len(ex.r) >= 1
+             /\ LET d == ParseHeap(heap, ex.r[1], 32, <<>>, 0) IN
+                /\ d.ok
+                /\ \E l \in d.leaves : /\ l.k = BytesToBits(r.shrd.wc4) /\ Len(l.r) >= 1
+                                        /\ \E b \in BtLeaves(heap, l.r[1]) : Len(b) >= 453 /\ BitsToBytes(SubSeq(b, 198, 453)) = r.shrd.root
+
 Failed(r) ==
     CASE r.op = "proof" ->
             LET heap == HeapOf(r.cells) IN Verdict(r, P!CheckProof(heap, C!InfoAll(heap), r.proof, r.want))
@@ -51,6 +90,7 @@ Failed(r) ==
             Verdict(r, ok)
             \cup Clause("state_hash_extracted_ok", (ok /\ Has(r.out, "ok") /\ Has(r.out, "state")) => r.out.state = P!StateHashOf(heap, info, r.root))
       [] r.op = "account" -> Verdict(r, AccountAccepts(r))
+      [] r.op = "shard" -> Verdict(r, ShardAccepts(r))
 TInit == KitInit
 TNext == KitNext(Failed)
 =============================================================================
